@@ -187,15 +187,19 @@ class SerializerBase(object):
         # instead of added on a per-class basis to the dict-to-class registry
         if classname == "Pyro5.core.URI":
             uri = core.URI.__new__(core.URI)
-            uri.__setstate__(data["state"])
+            uri.__setstate__(cls._plain_sequence(data["state"]))
             return uri
         elif classname == "Pyro5.client.Proxy":
             proxy = client.Proxy.__new__(client.Proxy)
-            proxy.__setstate__(data["state"])
+            state = cls._plain_sequence(data["state"])
+            cls._plain_sequence(state[1], (list, tuple, set, frozenset))     # (oneway, methods and attrs are iterated into sets)
+            cls._plain_sequence(state[2], (list, tuple, set, frozenset))
+            cls._plain_sequence(state[3], (list, tuple, set, frozenset))
+            proxy.__setstate__(state)
             return proxy
         elif classname == "Pyro5.server.Daemon":
             daemon = server.Daemon.__new__(server.Daemon)
-            daemon.__setstate__(data["state"])
+            daemon.__setstate__(cls._plain_sequence(data["state"]))
             return daemon
         elif classname.startswith("Pyro5.util."):
             if classname == "Pyro5.util.SerpentSerializer":
@@ -235,11 +239,20 @@ class SerializerBase(object):
         raise errors.SerializeError("unsupported serialized class: " + classname)
 
     @staticmethod
+    def _plain_sequence(value, types=(list, tuple)):
+        # The members of a class dict are taken apart (unpacked, iterated, measured) when the object is rebuilt.
+        # Only ever do that to a plain container: msgpack revives the members of a dict before the dict itself,
+        # so a member can be a live object already - such as a Proxy, which would answer by calling its remote object.
+        if not isinstance(value, types):
+            raise errors.SerializeError("invalid member in serialized class data")
+        return value
+
+    @staticmethod
     def make_exception(exceptiontype, data):
-        ex = exceptiontype(*data["args"])
+        ex = exceptiontype(*SerializerBase._plain_sequence(data["args"]))
         if "attributes" in data:
             # restore custom attributes on the exception object
-            for attr, value in data["attributes"].items():
+            for attr, value in SerializerBase._plain_sequence(data["attributes"], dict).items():
                 setattr(ex, attr, value)
         return ex
 
